@@ -289,6 +289,9 @@ func runWhole(circ *circuit.Circuit, x, y *big.Int, o sessOpts) *sessResult {
 		})
 }
 
+// streamSourceName is the source name streaming sessions compile under (a path when the program needs files next to it)
+var streamSourceName = "{verif}"
+
 // runStream runs one streaming session: compiler.Stream against circuit.StreamEvaluator.
 // The output types of both sides are returned in gIO / eIO.
 func runStream(src string, x, y []string, o sessOpts, sizes ...[][]int) *sessResult {
@@ -302,7 +305,7 @@ func runStream(src string, x, y []string, o sessOpts, sizes ...[][]int) *sessRes
 			params := utils.NewParams()
 			params.Config = cfg
 			params.MPCLCErrorLoc = false
-			io, out, err := compiler.New(params).Stream(conn, oti, "{verif}", strings.NewReader(src), x, inputSizes)
+			io, out, err := compiler.New(params).Stream(conn, oti, streamSourceName, strings.NewReader(src), x, inputSizes)
 			gIO = io
 			return out, err
 		},
